@@ -85,7 +85,11 @@ def run_one(m, repo, slot, pids=None):
             return res
         tdir = os.path.join(extract_mod.CACHE, 'target-mut-%d' % slot)
         try:
-            paths, info = extract_mod.extract(scratch, 'default', target_dir=tdir)
+            try:
+                paths, info = extract_mod.extract(scratch, 'default', target_dir=tdir)
+            except RuntimeError:
+                time.sleep(1.0)     # one retry: a transient failure of the shared cargo cache must not be reported as "does not compile"
+                paths, info = extract_mod.extract(scratch, 'default', target_dir=tdir)
         except RuntimeError as e:
             res['status'] = 'does-not-compile'
             res['detail'] = str(e)
